@@ -63,8 +63,20 @@ def run(ctx):
     for fam in swcorpus.FAMS:
         p, n = swcorpus.gen(ctx, fam, "{7}")
         frames += [dict(id=r["id"], frame=r["frame"]) for r in vlib.read_ndjson(p)]
+    # packet-header kinds built and encoded concurrently too (protocol/: DHCP / LLDP codecs, IGMP, IPv6 chains, ...)
+    pkts = []
+    for fam, stride in (("DL", 1), ("DC", 1), ("IGMP", 1), ("EXT", 7), ("L4", 1), ("ETH", 1)):
+        cfgtxt = "SPECIFICATION Spec\nCONSTANTS\n  Family = \"%s\"\n  Stride = %d\n  Phase = 0\n" % (fam, stride)
+        p, n = pipeline.gen_tlc(ctx, "PktGen", cfgtxt, "PktGen[%s]" % fam, "xp" + fam, expect_min=5, workers=4, xmx="6g")
+        for r in vlib.read_ndjson(p):
+            x = ofcorpus._pkt_observe(r, ctx.seed)
+            x.pop("trees", None)
+            pkts.append(x)
+    if q:
+        pkts = pkts[::3]
     for r in rows:
         r.pop("trees", None)
+    rows += pkts
     cap = 300 if q else 1500
     # values built with the constructors' defaults only (shared default state would show as order dependence)
     defaults = []
@@ -126,7 +138,7 @@ def run(ctx):
         "draw ids through every constructor that embeds a generated header (14 entry points) under the race detector; the recorded "
         "per-goroutine id sequences are judged by TLC against the abstract action 'Draw returns an id never returned before' "
         "(pairwise distinct). Cross-talk: %d independent scenarios (construction histories of the OFGen.tla corpus, built, encoded, "
-        "parsed back and projected; frames of the OFSwGen.tla corpus parsed, projected and re-encoded) are processed once sequentially and "
+        "parsed back and projected; packet headers of the PktGen.tla corpus built and encoded; frames of the OFSwGen.tla corpus parsed, projected and re-encoded) are processed once sequentially and "
         "(fresh input slices), again in reverse order and then concurrently by %s goroutines, each parsing out of its own reused receive "
         "buffer and projecting a value only after the next frame has overwritten that buffer (as the stream's pooled buffers do); TLC "
         "requires every later observation to equal the sequential one and no race report."
